@@ -289,6 +289,9 @@ func gen(body []byte) *core.Verdict {
 					if f.Dflt == nil {
 						f.Dflt = []string{}
 					}
+					if f.Iff == nil {
+						f.Iff = []string{}
+					}
 					fs = append(fs, f)
 				}
 				flat[n] = fs
